@@ -1,10 +1,10 @@
 package checks
 
 import (
-	"net"
-	"sync/atomic"
 	"fmt"
+	"net"
 	"os"
+	"sync/atomic"
 	"testing"
 
 	badgerdb "github.com/dgraph-io/badger/v2"
